@@ -13,6 +13,9 @@
  *         O            the other object (generic assignment)
  *   separate kinds:  <impl> pm <mlen> <match-hex|N> <name-hex>...     mpt_property_match
  *                    <impl> col <text-hex|N>                          mpt_color_parse (+ print/parse again in x)
+ *                    <impl> lat <w0,s0,y0,z0> <width> <style> <symbol> <size>   mpt_lattr_set on an attribute set holding w0..z0
+ *         pinfo <a|b>                 property query without property record (type of the object interface)
+ *         tot <a|b>                   the whole-object query (property "")
  * One token per op:  <result>|<dump a>|<dump b>  with dump = name=value,...  read by POSITION through the
  * public get interface;  value: s:<hex>|s:~ (NULL), d:<16hex>, f:<8hex>, i:<dec>, c:<dec>, C:aarrggbb,
  * P:<8hex>;<8hex>, ?<type> (type not readable);  a trailing * = get reports "differs from default",
@@ -40,6 +43,8 @@ struct hobj {
  * operation is not handled, else prints the result token and advances *t past its arguments */
 typedef int (*h_xop_fn)(struct hobj *a, struct hobj *b, const char *op, int ntok, char **tok, int *t);
 static h_xop_fn h_xop = 0;
+/* optional: the type id the mpt++ class of the object registers for itself */
+static int (*h_me_id)(struct hobj *) = 0;
 
 enum { K_AXIS, K_LINE, K_TEXT, K_GRAPH, K_WORLD, K_LAYOUT };
 
@@ -286,6 +291,40 @@ static void h_run_object_case(int ntok, char **tok, struct hobj *a, struct hobj 
 			if (id) mpt_identifier_set(id, 0, 0);
 			free(name);
 		}
+		else if (!strcmp(op, "tot")) {
+			/* the whole-object query: property "" (name of the kind, member types, 1 when a member differs from the default) */
+			struct hobj *tg = tok[t][0] == 'b' ? b : a;
+			H_PR_DECL(pr);
+			int r;
+			t += 1;
+			pr.name = "";
+			pr.desc = 0;
+			r = tg->get(tg, &pr);
+			if (r < 0) vh_tok("E%d", -r);
+			else {
+				vh_tok("G:%s=", pr.name);
+				h_value((long) H_PR_TYPE(pr), H_PR_ADDR(pr));
+				if (r > 0) vh_add("*");
+			}
+		}
+		else if (!strcmp(op, "pinfo")) {
+			/* the property query without a record: the type id of the object's data (pointer type, line: value type) */
+			struct hobj *tg = tok[t][0] == 'b' ? b : a;
+			int r = tg->get(tg, 0), want = 0;
+			t += 1;
+			switch (tg->kind) {
+			case K_AXIS: want = mpt_axis_pointer_typeid(); break;
+			case K_LINE: want = mpt_line_typeid(); break;
+			case K_TEXT: want = mpt_text_pointer_typeid(); break;
+			case K_GRAPH: want = mpt_graph_pointer_typeid(); break;
+			case K_WORLD: want = mpt_world_pointer_typeid(); break;
+			default: want = 0;
+			}
+			if (r < 0) vh_tok("E%d", -r);
+			else if (want > 0 && r == want) vh_tok("Pc");
+			else if (h_me_id && r == h_me_id(tg)) vh_tok("Pme");
+			else vh_tok("Pn%d", r);
+		}
 		else if (h_xop && h_xop(a, b, op, ntok, tok, &t)) { }
 		else { vh_tok("?%s", op); break; }
 		vh_add("|");
@@ -293,6 +332,23 @@ static void h_run_object_case(int ntok, char **tok, struct hobj *a, struct hobj 
 		vh_add("|");
 		h_dump(b);
 	}
+}
+
+/* mpt_lattr_set(attr, width, style, symbol, size): result and the four members read back */
+static void h_run_lat(int ntok, char **tok)
+{
+	MPT_STRUCT(lineattr) *at = (MPT_STRUCT(lineattr) *) malloc(sizeof(*at));
+	unsigned v[4] = { 0, 0, 0, 0 };
+	int r;
+	if (ntok < 8) { free(at); vh_tok("?lat"); return; }
+	sscanf(tok[3], "%u,%u,%u,%u", &v[0], &v[1], &v[2], &v[3]);
+	at->width = v[0]; at->style = v[1]; at->symbol = v[2]; at->size = v[3];
+	r = mpt_lattr_set(at, (int) vh_int(tok[4]), (int) vh_int(tok[5]), (int) vh_int(tok[6]), (int) vh_int(tok[7]));
+	if (r < 0) vh_tok("E%d", -r); else vh_tok("K%d", r);
+	vh_add("|%u,%u,%u,%u", (unsigned) at->width, (unsigned) at->style, (unsigned) at->symbol, (unsigned) at->size);
+	free(at);
+	r = mpt_lattr_set(0, 1, 1, 1, 1);
+	if (r < 0) vh_tok("E%d", -r); else vh_tok("K%d", r);
 }
 
 static void h_run_pm(int ntok, char **tok)
